@@ -92,6 +92,10 @@ extern int mpt_color_pset(MPT_STRUCT(color) *col, MPT_INTERFACE(convertable) *sr
 	}
 	if ((type = mpt_color_typeid()) > 0
 	 && (len = src->_vptr->convert(src, type, col)) >= 0) {
+		/* source without value */
+		if (!len) {
+			mpt_color_set(col, 0, 0, 0);
+		}
 		return 0;
 	}
 	/* parse color name/format  */
